@@ -55,6 +55,8 @@ def configs(tier, seed):
         cfgs.append(dict(kind='gabor', name='gabor edges erb=%s l2=%s' % (erb, l2), erb=erb, l2=l2))
     for l2 in (False, True):
         cfgs.append(dict(kind='gabor_place', name='gabor impulse response sample placement l2=%s' % l2, l2=l2, widths=[2, 3, 4, 5, 8] if tier == 'quick' else [1, 2, 3, 4, 5, 6, 7, 8, 9, 12, 15]))
+    for order, width in (((4, 5), (4, 40), (8, 600)) if tier == 'quick' else ((3, 7), (4, 5), (4, 40), (6, 64), (8, 600), (8, 1030))):
+        cfgs.append(dict(kind='gt_impulse', name='gammatone impulse response closed form n%d width %d' % (order, width), order=order, width=width))
     for order in (range(3, 7) if tier == 'quick' else range(3, 9)):
         for erb in (False, True):
             cfgs.append(dict(kind='gt_freq', name='gammatone frequency edge n%d erb=%s' % (order, erb), order=order, erb=erb))
@@ -253,6 +255,10 @@ _sadd = SReal.__add__
 def _sradd(self, o):
     if isinstance(o, _np.ndarray):
         return NotImplemented
+    if isinstance(o, complex):
+        if o == 0:
+            return self
+        raise symex.Unsupported('symbolic value plus a concrete complex number')
     if isinstance(o, SCx):
         return o + self
     return _sadd(self, o)
@@ -762,7 +768,121 @@ def run_gabor_place(cfg):
                 samples=[{'config': cfg['name'], 'obligation': 'forall std, xi: h[n] = sum over t = n mod W of the documented term, nearest representative present', 'widths': cfg['widths']}])
 
 
+def run_gt_impulse(cfg):
+    """ComplexGammatoneFilterBank.get_impulse_response(i, W) of a causal filter with symbolic c, alpha, xi: sample n is
+    the sum over t = n + pW (t > 0, inside the support) of c t^(n-1) exp(-alpha t) exp(i xi t).  Every additive term of a
+    cell is split into (rational multiple of c or 1) x CEXP(re, im); log-magnitude and phase are compared with the
+    documented ones for all (log c, alpha, xi) -- linear in these atoms.  Index arithmetic is NumPy's own (object
+    arrays), so integer powers evaluated on int64 arrays wrap exactly as they do in the library."""
+    order, W = cfg['order'], cfg['width']
+    ns = fc.load_filters(dict(np=PNP()), decimal=False)
+    fc.stub_alias(ns)
+    viol = []
+    ob = dis = 0
+    cz, al, xi = z3.Real('c'), z3.Real('alpha'), z3.Real('xi')
+    Lc = LOGEXP.f(cz)
+    Lv = z3.Real('log_c')
+    R_ = W + W // 2            # support (0, R_): two periods alias into the buffer
+    tol = z3.RealVal('1/100000000')
+
+    def body():
+        c = Ctx.cur
+        c.assume(cz > 0, al > 0, al <= 2, xi >= 0, xi <= rv(math.pi))
+        b = fc.handbuilt(ns, 'ComplexGammatoneFilterBank', _order=order, _alphas=(SReal(al),), _cs=(SReal(cz),), _xis=(SReal(xi),), _offsets=(0,),
+                         _supports=((0, R_),), _rate=8000)
+        del EXPARGS[:]
+        try:
+            res = b.get_impulse_response(0, W)
+        except Exception as e:
+            symex.guard(e)
+            return ('exception', '%s: %s' % (type(e).__name__, e))
+        if len(res) != W:
+            return ('length', len(res))
+        return ('ok', [res[n] for n in range(W)])
+
+    def summands(term):
+        term = z3.simplify(term, som=True)
+        parts = list(term.children()) if z3.is_add(term) else [term]
+        out = []
+        for p_ in parts:
+            apps = _apps([p_], 'CEXP')
+            if len(apps) != 1:
+                if z3.is_rational_value(p_) and p_.as_fraction() == 0:
+                    continue
+                return None
+            coef = z3.simplify(z3.substitute(p_, (apps[0], z3.RealVal(1))))
+            out.append((coef, apps[0]))
+        return out
+
+    for ctx, res in explore(body, max_paths=10):
+        if res is None:
+            continue
+        ob += 1
+        base = dict(kind='gt_impulse', order=order, width=W)
+        if res[0] != 'ok':
+            viol.append(dict(base, what='%s %s' % (res[0], res[1])))
+            continue
+        bad = None
+        for n, cell in enumerate(res[1]):
+            nper = -(-R_ // W)
+            want_ts = [t for t in range(n, R_ + 1, W) if t > 0]
+            cellz = rv(cell) if not isinstance(cell, (int, float, complex)) else z3.RealVal(0)
+            sm = summands(cellz)
+            if sm is None:
+                bad = 'sample %d: not a sum of (coefficient x complex exponential) terms' % n
+                break
+            found = []
+            for coef, app in sm:
+                k1 = z3.simplify(z3.substitute(coef, (cz, z3.RealVal(1))))
+                k2 = z3.simplify(z3.substitute(coef, (cz, z3.RealVal(2))))
+                if not (z3.is_rational_value(k1) and z3.is_rational_value(k2)):
+                    bad = 'sample %d: coefficient %s is not a constant multiple of c' % (n, str(coef)[:60])
+                    break
+                f1, f2 = k1.as_fraction(), k2.as_fraction()
+                has_c = f2 == 2 * f1 and f1 != 0
+                if f1 == 0:
+                    continue
+                if not (has_c or f2 == f1) or f1 <= 0:
+                    bad = 'sample %d: term with coefficient %s (negative or not proportional to c): the closed form has positive terms c t^(n-1) e^(-alpha t)' % (n, f1)
+                    break
+                logk = math.log(float(f1)) if f1 < 10 ** 300 else float('inf')
+                re_ = z3.substitute(app.arg(0), (Lc, Lv))
+                im_ = app.arg(1)
+                hit = None
+                tq = z3.simplify(z3.substitute(im_, (xi, z3.RealVal(1))))       # phase = xi * t: read t off the phase
+                if z3.is_rational_value(tq) and tq.as_fraction().denominator == 1 and z3.simplify(im_ - xi * tq).eq(z3.RealVal(0)):
+                    t = int(tq.as_fraction())
+                    if t > 0:
+                        doc = Lv + rv((order - 1) * math.log(t)) - al * t
+                        mag = rv(logk) + (Lv if has_c else 0) + re_
+                        d_ = z3.simplify(mag - doc)
+                        if z3.is_rational_value(d_) and abs(float(d_.as_fraction())) <= 1e-8:
+                            hit = t
+                if hit is None:
+                    bad = 'sample %d of %d: a term (coefficient %.6g%s, phase %s) is not c t^%d e^(-alpha t) e^(i xi t) at an integer time t > 0' % (
+                        n, W, float(f1), ' c' if has_c else '', str(z3.simplify(im_))[:30], order - 1)
+                    break
+                found.append(hit)
+            if bad:
+                break
+            allowed = [t for t in range(n, (nper + 2) * W, W) if t > 0]
+            if len(set(found)) != len(found) or not set(want_ts) <= set(found) or not set(found) <= set(allowed):
+                bad = 'sample %d of %d: terms at t = %s; documented: every t = %d mod %d inside the support %s exactly once, none outside the periods the support spans' % (
+                    n, W, sorted(found), n, W, want_ts)
+                break
+        if bad:
+            viol.append(dict(base, what=bad))
+        else:
+            dis += 1
+    for w in viol:
+        w['class'] = 'gt_impulse/n%d/%s' % (order, w['what'].split(':')[0][:12])
+    return dict(obligations=ob, discharged=dis, violations=viol, twin=dis > 0,
+                samples=[{'config': cfg['name'], 'obligation': 'forall c, alpha, xi: h[n] = sum_{t = n mod W, 0 < t <= R} c t^(order-1) exp(-alpha t) exp(i xi t)', 'support': [0, R_]}])
+
+
 def run_config(cfg):
+    if cfg['kind'] == 'gt_impulse':
+        return run_gt_impulse(cfg)
     if cfg['kind'] == 'gabor_place':
         return run_gabor_place(cfg)
     return {'dtype': run_dtype, 'straddle': run_straddle, 'gabor': run_gabor, 'gt_freq': run_gt_freq, 'gt_time': run_gt_time}[cfg['kind']](cfg)
@@ -830,6 +950,19 @@ def replay(w):
                       if v2 > worst[0]:
                           worst = (float(v2), 'filter %d of %d (time; %.1f x threshold)' % (i, nfb, v2 / 1.25 / thr))
             return {'reproduced': worst[0] > 2.5 * thr, 'detail': 'max magnitude outside the advertised support = %.3g (%.1f x threshold) at %s' % (worst[0], worst[0] / thr, worst[1])}
+        if k == 'gt_impulse':
+            worst = (0.0, None)
+            for rate, nf in ((8000, 6), (44100, 40)):
+                b = filters.ComplexGammatoneFilterBank('mel', num_filts=nf, sampling_rate=rate, order=w['order'])
+                for i in sorted(set([0, 1, nf // 2, nf - 1])):
+                    s0, s1 = b.supports[i]
+                    for width in (2 * (s1 - s0) + 1, 2 * (s1 - s0) + 2):
+                        h = b.get_impulse_response(i, width)
+                        H = b.get_frequency_response(i, width)
+                        d = float(np.abs(np.fft.ifft(H) - h).max())
+                        if d > worst[0]:
+                            worst = (d, 'order %d, %d Hz, filter %d of %d, width %d' % (w['order'], rate, i, nf, width))
+            return {'reproduced': worst[0] > 4 * thr, 'detail': 'max |ifft(get_frequency_response) - get_impulse_response| = %.3g (%.1f x threshold; %s)' % (worst[0], worst[0] / thr, worst[1])}
         if k == 'gabor_place':
             worst = (0.0, None)
             for sc_ in ('mel', 'bark'):
